@@ -1,6 +1,6 @@
 """Shared helpers for C09 / C10: JSON views of an FSA, a tiny set-based reference automaton,
 construction routes, history application and generators."""
-import copy, collections, itertools, os, re
+import copy, collections, itertools, os, re, signal, time, contextlib
 from geometry_tools.automata import fsa as FS
 from geometry_tools.automata.fsa import FSA
 from geometry_tools.automata import kbmag_utils
@@ -420,3 +420,29 @@ def table_of_text(text):
     iv = re.fullmatch(r"(-?\d+)\.\.(-?\d+)", ini)
     initial = list(range(int(iv.group(1)), int(iv.group(2)) + 1)) if iv else [int(x) for x in ini.split(",") if x]
     return labels, transitions, initial
+
+
+# ------------------------------------------------------------------ bounded calls
+class CallTimeout(Exception):
+    pass
+
+
+@contextlib.contextmanager
+def time_limit(sec):
+    """bound one call of the implementation (automaton_multiple's queue loop can be exponential); the
+    runner's own SIGALRM deadline is suspended and re-armed with the time that was left"""
+    old = signal.getsignal(signal.SIGALRM)
+    left = signal.setitimer(signal.ITIMER_REAL, 0)[0]      # the runner's deadline (alarm and itimer share one timer)
+    t0 = time.time()
+
+    def h(signum, frame):
+        raise CallTimeout("call did not return within %s s" % sec)
+    signal.signal(signal.SIGALRM, h)
+    signal.setitimer(signal.ITIMER_REAL, sec)
+    try:
+        yield
+    finally:
+        signal.setitimer(signal.ITIMER_REAL, 0)
+        signal.signal(signal.SIGALRM, old)
+        if left:
+            signal.setitimer(signal.ITIMER_REAL, max(0.01, left - (time.time() - t0)))
